@@ -42,7 +42,8 @@
                                 `evaluate_remove_unreferenced_attribute` (section 8; whole `Obs` equal)
     stored flags' metadata .... `stored_metadata`, `stored_metadata_both` (section 9; Spec result);
                                 `evaluate_stored_metadata(_both)` (section 10; whole `Obs`, for everything
-                                but the version / excludeFromSummaries that prerequisite events report)
+                                but the version / excludeFromSummaries that prerequisite events report);
+                                `evaluate_stored_segment_metadata` (section 11; version / deleted of stored segments)
     NOT invariant (F6) ........ `clause_order_observable`; `shortcut_observable` for `ShortcutNeutral`
 
   A caveat that the proofs make precise (7): turning a *single `user`* context into a
@@ -2861,6 +2862,272 @@ example (env : Env) (f : Flag) :
 
 #print axioms evaluate_stored_metadata
 #print axioms evaluate_stored_metadata_both
+
+/-! ## 11. Metadata of segments held in the store (entry point, whole observation)
+
+  C20 (metadata, continued) — the metadata (`version`, `deleted`) of SEGMENTS held in the store,
+  at the entry point.
+
+  Sections 9 and 10 of `C20.lean` show that the observation of `LD.evaluate` does not depend on the
+  metadata of stored flags.  Here the same is shown for stored segments: pushing every stored
+  segment through any `g` that changes nothing but `version` / `deleted` (lookup keys unchanged)
+  leaves the WHOLE observation unchanged.
+-/
+
+
+/-- The segment with its metadata (version, deleted) replaced. -/
+def _root_.LD.Segment.withSegMeta (s : Segment) (v : Int) (d : Bool) : Segment :=
+  { s with version := v, deleted := d }
+
+/-- `g` changes nothing but a segment's metadata. -/
+def SegMetaOnly (g : Segment → Segment) : Prop := ∀ s, ∃ v d, g s = s.withSegMeta v d
+
+/-- The environment whose stored segments all went through `g` (lookup keys unchanged). -/
+def remetaSegments (env : Env) (g : Segment → Segment) : Env :=
+  { env with store := { env.store with segments := env.store.segments.map (fun p => (p.1, g p.2)) } }
+
+section SegMetaModel
+variable {env : Env} {g : Segment → Segment}
+
+/-! ### Lookups and fuel -/
+
+theorem findSegment_remetaSegments (env : Env) (g : Segment → Segment) (k : String) :
+    (remetaSegments env g).store.findSegment k = (env.store.findSegment k).map g := by
+  show (((env.store.segments.map (fun p => (p.1, g p.2))).find? (·.1 == k)).map (·.2)) =
+    ((env.store.segments.find? (·.1 == k)).map (·.2)).map g
+  induction env.store.segments with
+  | nil => rfl
+  | cons p ps ih =>
+    simp only [List.map_cons, List.find?_cons]
+    cases p.1 == k
+    · exact ih
+    · rfl
+
+theorem findFlag_remetaSegments (env : Env) (g : Segment → Segment) (k : String) :
+    (remetaSegments env g).store.findFlag k = env.store.findFlag k := rfl
+
+theorem SegMetaOnly.key (hg : SegMetaOnly g) (s : Segment) : (g s).key = s.key := by
+  obtain ⟨v, d, h⟩ := hg s; rw [h]; rfl
+
+theorem flagFuel_remetaSegments (env : Env) (g : Segment → Segment) :
+    flagFuel (remetaSegments env g).store = flagFuel env.store := rfl
+
+theorem segFuel_remetaSegments (hg : SegMetaOnly g) (env : Env) :
+    segFuel (remetaSegments env g).store = segFuel env.store := by
+  show distinctCount ((env.store.segments.map (fun p => (p.1, g p.2))).map (·.2.key)) + 2 =
+    distinctCount (env.store.segments.map (·.2.key)) + 2
+  rw [List.map_map]
+  have : ((fun p : String × Segment => p.2.key) ∘ fun p : String × Segment => (p.1, g p.2)) =
+      (fun p : String × Segment => p.2.key) := by
+    funext p
+    exact hg.key p.2
+  rw [this]
+
+/-! ### The segment recursion -/
+
+theorem s_segMatchValues {rec rec' : LD.SegRec}
+    (hrec : ∀ s chain st, rec' (g s) chain st = rec s chain st) (negate : Bool)
+    (chain : List String) :
+    ∀ vs st, LD.segMatchValues rec' (remetaSegments env g) negate chain vs st =
+      LD.segMatchValues rec env negate chain vs st := by
+  intro vs
+  induction vs with
+  | nil => intro st; rfl
+  | cons v vs ih =>
+    intro st
+    cases v with
+    | str k =>
+      simp only [LD.segMatchValues, findSegment_remetaSegments]
+      cases hf : env.store.findSegment k with
+      | none => exact ih _
+      | some seg => simp only [Option.map_some, hrec, ih]
+    | null => simp only [LD.segMatchValues]; exact ih _
+    | bool b => simp only [LD.segMatchValues]; exact ih _
+    | num q => simp only [LD.segMatchValues]; exact ih _
+    | arr xs => simp only [LD.segMatchValues]; exact ih _
+    | obj kvs => simp only [LD.segMatchValues]; exact ih _
+    | raw w => simp only [LD.segMatchValues]; exact ih _
+
+theorem s_clauseMatch {rec rec' : LD.SegRec}
+    (hrec : ∀ s chain st, rec' (g s) chain st = rec s chain st)
+    (chain : List String) (c : Clause) (st : St) :
+    LD.clauseMatch rec' (remetaSegments env g) chain c st = LD.clauseMatch rec env chain c st := by
+  unfold LD.clauseMatch
+  rw [s_segMatchValues hrec]
+  rfl
+
+theorem s_clausesMatch {rec rec' : LD.SegRec}
+    (hrec : ∀ s chain st, rec' (g s) chain st = rec s chain st) (chain : List String) :
+    ∀ cs st, LD.clausesMatch rec' (remetaSegments env g) chain cs st =
+      LD.clausesMatch rec env chain cs st := by
+  intro cs
+  induction cs with
+  | nil => intro st; rfl
+  | cons c cs ih => intro st; simp only [LD.clausesMatch, s_clauseMatch hrec, ih]
+
+theorem s_segRuleMatch {rec rec' : LD.SegRec}
+    (hrec : ∀ s chain st, rec' (g s) chain st = rec s chain st) (chain : List String)
+    (key salt : String) (r : SegmentRule) (st : St) :
+    LD.segRuleMatch rec' (remetaSegments env g) chain key salt r st =
+      LD.segRuleMatch rec env chain key salt r st := by
+  unfold LD.segRuleMatch
+  rw [s_clausesMatch hrec]
+  rfl
+
+theorem s_segRules {rec rec' : LD.SegRec}
+    (hrec : ∀ s chain st, rec' (g s) chain st = rec s chain st) (chain : List String)
+    (s : Segment) (v : Int) (d : Bool) :
+    ∀ rs st, LD.segRules rec' (remetaSegments env g) chain (s.withSegMeta v d) rs st =
+      LD.segRules rec env chain s rs st := by
+  intro rs
+  induction rs with
+  | nil => intro st; rfl
+  | cons r rs ih =>
+    intro st
+    simp only [LD.segRules, s_segRuleMatch hrec, ih]
+    rfl
+
+theorem s_bigSegMembership (key : String) (st : St) :
+    LD.bigSegMembership (remetaSegments env g) key st = LD.bigSegMembership env key st := rfl
+
+theorem s_segLists (ctx : Ctx) (s : Segment) (v : Int) (d : Bool) :
+    LD.segLists ctx (s.withSegMeta v d) = LD.segLists ctx s := rfl
+
+theorem s_bigSegmentRef (s : Segment) (v : Int) (d : Bool) :
+    LD.bigSegmentRef (s.withSegMeta v d) = LD.bigSegmentRef s := rfl
+
+theorem s_segBody_withSegMeta {rec rec' : LD.SegRec}
+    (hrec : ∀ s chain st, rec' (g s) chain st = rec s chain st)
+    (s : Segment) (v : Int) (d : Bool) (chain : List String) (st : St) :
+    LD.segBody rec' (remetaSegments env g) (s.withSegMeta v d) chain st =
+      LD.segBody rec env s chain st := by
+  unfold LD.segBody
+  simp only [s_segRules hrec, s_bigSegMembership, s_segLists, s_bigSegmentRef]
+  rfl
+
+/-- One level of the segment recursion over the re-metadata'd store, for any two recursive
+evaluators that agree modulo `g`. -/
+theorem s_segBody (hg : SegMetaOnly g) {rec rec' : LD.SegRec}
+    (hrec : ∀ s chain st, rec' (g s) chain st = rec s chain st)
+    (s : Segment) (chain : List String) (st : St) :
+    LD.segBody rec' (remetaSegments env g) (g s) chain st = LD.segBody rec env s chain st := by
+  obtain ⟨v, d, h⟩ := hg s
+  rw [h]
+  exact s_segBody_withSegMeta hrec s v d chain st
+
+theorem s_segContains (hg : SegMetaOnly g) (env : Env) (n : Nat) :
+    ∀ s chain st, LD.segContains n (remetaSegments env g) (g s) chain st =
+      LD.segContains n env s chain st := by
+  induction n with
+  | zero => intro s chain st; rfl
+  | succ n ih =>
+    intro s chain st
+    show LD.segBody (LD.segContains n (remetaSegments env g)) (remetaSegments env g) (g s) chain st = _
+    exact s_segBody hg ih s chain st
+
+/-! ### The flag level -/
+
+theorem s_logErr (k : String) (e : EvalErr) (st : St) :
+    LD.logErr (remetaSegments env g) k e st = LD.logErr env k e st := rfl
+
+theorem s_getVariation (f : Flag) (i : Int) (r : Reason) (st : St) :
+    LD.getVariation (remetaSegments env g) f i r st = LD.getVariation env f i r st := rfl
+
+theorem s_getOffValue (f : Flag) (r : Reason) (st : St) :
+    LD.getOffValue (remetaSegments env g) f r st = LD.getOffValue env f r st := rfl
+
+theorem s_getValueForVR (f : Flag) (vr : VariationOrRollout) (r : Reason) (st : St) :
+    LD.getValueForVR (remetaSegments env g) f vr r st = LD.getValueForVR env f vr r st := rfl
+
+theorem s_rulesLoop {seg seg' : LD.SegRec}
+    (hseg : ∀ s chain st, seg' (g s) chain st = seg s chain st) (f : Flag) :
+    ∀ rs i st, LD.rulesLoop seg' (remetaSegments env g) f rs i st =
+      LD.rulesLoop seg env f rs i st := by
+  intro rs
+  induction rs with
+  | nil => intro i st; rfl
+  | cons r rs ih =>
+    intro i st
+    simp only [LD.rulesLoop, s_clausesMatch hseg, s_getValueForVR, s_logErr, ih]
+
+theorem s_prereqLoop {rec rec' : LD.FlagRec}
+    (hrec : ∀ pf chain st, rec' pf chain st = rec pf chain st) (f : Flag) (chain : List String) :
+    ∀ ps st, LD.prereqLoop rec' (remetaSegments env g) f chain ps st =
+      LD.prereqLoop rec env f chain ps st := by
+  intro ps
+  induction ps with
+  | nil => intro st; rfl
+  | cons p ps ih =>
+    intro st
+    simp only [LD.prereqLoop, findFlag_remetaSegments]
+    cases hf : env.store.findFlag p.key with
+    | none => rfl
+    | some pf =>
+      simp only [hrec, ih, s_logErr]
+      rfl
+
+theorem s_evalBody {rec rec' : LD.FlagRec}
+    (hrec : ∀ pf chain st, rec' pf chain st = rec pf chain st) {seg seg' : LD.SegRec}
+    (hseg : ∀ s chain st, seg' (g s) chain st = seg s chain st)
+    (f : Flag) (chain : List String) (st : St) :
+    LD.evalBody rec' seg' (remetaSegments env g) f chain st = LD.evalBody rec seg env f chain st := by
+  unfold LD.evalBody LD.checkPrereqs
+  simp only [s_prereqLoop hrec, s_rulesLoop hseg, s_getOffValue, s_getVariation]
+  rfl
+
+end SegMetaModel
+
+/-- **Stored segment metadata, model.**  Result and final state (events, logs, lookups, queries) of
+the stateful evaluator are unchanged. -/
+theorem m_stored_segment_metadata (env : Env) (g : Segment → Segment) (hg : SegMetaOnly g)
+    (sf n : Nat) (f : Flag) (chain : List String) (st : St) :
+    LD.evalFlag sf n (remetaSegments env g) f chain st = LD.evalFlag sf n env f chain st := by
+  induction n generalizing f chain st with
+  | zero => rfl
+  | succ n ih =>
+    show LD.evalBody (LD.evalFlag sf n (remetaSegments env g))
+      (LD.segContains sf (remetaSegments env g)) (remetaSegments env g) f chain st = _
+    exact s_evalBody (fun pf ch s => ih pf ch s) (s_segContains hg env sf) f chain st
+
+/-- **Stored segment metadata, entry point.** The WHOLE observation of `Evaluate` (result, status,
+experiment bit, prerequisite events, log lines, lookups, big-segment queries) is unchanged. -/
+theorem evaluate_stored_segment_metadata (env : Env) (g : Segment → Segment) (hg : SegMetaOnly g)
+    (f : Flag) :
+    evaluate (remetaSegments env g) f = evaluate env f := by
+  unfold evaluate
+  rw [segFuel_remetaSegments hg, flagFuel_remetaSegments, m_stored_segment_metadata env g hg]
+  rfl
+
+/-! ### Non-vacuity -/
+
+/-- A concrete `g` that bumps the version and flips `deleted`. -/
+def bumpSegMeta (s : Segment) : Segment := s.withSegMeta (s.version + 1) (!s.deleted)
+
+theorem bumpSegMeta_segMetaOnly : SegMetaOnly bumpSegMeta := fun _ => ⟨_, _, rfl⟩
+
+/-- `bumpSegMeta` satisfies `SegMetaOnly` and is not the identity (it changes every segment). -/
+example : SegMetaOnly bumpSegMeta ∧ ∀ s, bumpSegMeta s ≠ s := by
+  refine ⟨bumpSegMeta_segMetaOnly, fun s h => ?_⟩
+  have h' : (bumpSegMeta s).deleted = s.deleted := by rw [h]
+  have h'' : (!s.deleted) = s.deleted := h'
+  cases hb : s.deleted <;> rw [hb] at h'' <;> cases h''
+
+/-- The store really changes: a store with one segment, after `bumpSegMeta`, holds a different
+version and a flipped `deleted`. -/
+example :
+    let env : Env := { opts := {}, store := { segments := [("a", { key := "a" })] }, bs := none,
+                       ctx := .invalid, rx := default }
+    ((remetaSegments env bumpSegMeta).store.findSegment "a").map (fun s => (s.version, s.deleted))
+        = some (1, true) ∧
+    (env.store.findSegment "a").map (fun s => (s.version, s.deleted)) = some (0, false) := by
+  decide
+
+example (env : Env) (f : Flag) :
+    evaluate (remetaSegments env bumpSegMeta) f = evaluate env f :=
+  evaluate_stored_segment_metadata env bumpSegMeta bumpSegMeta_segMetaOnly f
+
+#print axioms m_stored_segment_metadata
+#print axioms evaluate_stored_segment_metadata
 
 end LD.C20
 
